@@ -683,10 +683,11 @@ func (rc *RegClient) imageCopyOpt(ctx context.Context, refSrc ref.Ref, refTgt re
 					// known blob media type
 					err = rc.imageCopyBlob(ctx, entrySrc, entryTgt, dEntry, opt, bOpt...)
 				default:
-					// unknown media type, first try an image copy
-					err = rc.imageCopyOpt(ctx, entrySrc, entryTgt, dEntry, true, parentsNew, opt)
-					if err != nil {
-						// fall back to trying to copy a blob
+					// unknown media type, copy an image when the entry can be retrieved as a manifest, otherwise copy a blob
+					// errors from copying the content of a manifest are reported rather than retried as a blob
+					if _, errM := rc.ManifestGet(ctx, entrySrc, WithManifestDesc(dEntry)); errM == nil {
+						err = rc.imageCopyOpt(ctx, entrySrc, entryTgt, dEntry, true, parentsNew, opt)
+					} else {
 						err = rc.imageCopyBlob(ctx, entrySrc, entryTgt, dEntry, opt, bOpt...)
 					}
 				}
